@@ -58,7 +58,8 @@ def one_history(rep, rng, dev, hid):
     raised = None
     with tempfile.TemporaryDirectory(prefix="pyt_c12_") as td:
         opts = runs.make_options(td, solve_time=1e9, dt_init=dt_init, dt_max=dt_max, adaptive=adaptive, adaptive_window=window,
-                                 adaptive_time_step_multiplier=mult, max_solve_retries=max_retries, save_every=1000)
+                                 adaptive_time_step_multiplier=mult, max_solve_retries=max_retries,
+                                 save_every=rng.choice([1, 2, 3, 5, 1000]))     # the rule must not see the save interval
         solver = TDGLSolver(dev, opts, applied_vector_potential=0.4, terminal_currents={"source": 2.0, "drain": -2.0})
         orig_static = TDGLSolver.solve_for_psi_squared
         orig_update = solver.update
